@@ -753,7 +753,14 @@ class DateTimeBase(Converter, abc.ABC):
                 could not be converted.
         """
         try:
-            return value.strftime(kwargs["format"])
+            fmt = kwargs["format"]
+            if isinstance(value, date) and value.year < 1000:
+                # Not all platforms zero pad %Y, but strptime needs four digits
+                fmt = re.sub(
+                    r"(?<!%)((?:%%)*)%Y", rf"\g<1>{value.year:04d}", fmt
+                )
+
+            return value.strftime(fmt)
         except KeyError:
             raise ConverterError("Missing format keyword argument")
         except Exception as e:
